@@ -1,5 +1,6 @@
 import CM.Proofs.Filter
 import CM.Proofs.FilterSites
+import CM.Proofs.FilterRender
 import CM.Spec.Tokenizer
 /-
 C17 — tag filtering only escapes `<`; no filtered element can be opened.
@@ -64,6 +65,30 @@ theorem no_rejected_start_tag_gfm (raw : Bytes) :
 theorem nameClosed_of_list (L : List Bytes) (h : L.all (fun n => n.all nameChar) = true) :
     NameClosed (fun n => L.contains n) :=
   Proofs.nameClosed_of_list L h
+
+/-! ### The whole rendered page -/
+
+/-- (b) for everything `AppendBlock` writes with `FilterTag = p`: for EVERY tree, source, SoftBreakBehavior, IgnoreRaw,
+    reference map and entity decoder. The renderer's own tags go through the predicate, text is escaped, raw HTML goes
+    through `filterRaw`. `rawSeamsOK` (decidable) says that no name candidate straddles a boundary between a verbatim
+    copied source slice (raw HTML, character reference, preserved soft break) and what is written next — without it the
+    statement is false on synthetic trees (raw `<scr` followed by raw `ipt>`; see `render_no_rejected_start_tag_target`). -/
+theorem render_no_rejected_start_tag (cx : RCtx) (p : Bytes → Bool) (hf : cx.filter = some p) (hp : NameClosed p) (t : Tree)
+    (hseam : rawSeamsOK cx t = true) : ∀ name ∈ Spec.startTags (appendBlock cx [] t), p name = false :=
+  Proofs.render_no_rejected_start_tag cx p hf hp t hseam
+
+/-- … and for `Render` of a list of root blocks (joined by blank lines). -/
+theorem renderAll_no_rejected_start_tag (mk : Bytes → RCtx) (p : Bytes → Bool) (hp : NameClosed p) (blocks : List (Bytes × Tree))
+    (hf : ∀ b ∈ blocks, (mk b.1).filter = some p) (hseam : ∀ b ∈ blocks, rawSeamsOK (mk b.1) b.2 = true) :
+    ∀ name ∈ Spec.startTags (renderAll mk blocks 0), p name = false :=
+  Proofs.renderAll_no_rejected_start_tag mk p hp blocks hf hseam
+
+/-- The seam condition follows from the parser contract `safePre` (character references span `&…;`, soft breaks span their
+    line ending) when every raw HTML slice ends outside a name candidate (inline tags end in `>`, HTML block lines in their
+    line ending). -/
+theorem rawSeamsOK_of_safePre (cx : RCtx) (t : Tree) (hpre : Spec.safePre cx.src t = true) (hraw : rawClosed cx.src t = true) :
+    rawSeamsOK cx t = true :=
+  Proofs.rawSeamsOK_of_safePre cx t hpre hraw
 
 /-- The statement without `NameClosed` is false: a predicate rejecting `s_x` but not `s` lets `<s_x>` through,
     because the filter shows the predicate the name `s` (letters, digits, `-`) where the tokenizer's name runs to
